@@ -157,6 +157,14 @@ impl<K: Send, V: Send + Sync, H> CacheShared<K, V, H> {
           let value_arc_to_return = new_cache_entry.value();
 
           let shard = shared.store.get_shard(&key);
+          // Publish the value and retire the in-flight marker in ONE critical section of
+          // the pending-loads lock (lock order pending -> shard, as in the callers'
+          // re-check). Otherwise a caller can read the published value, invalidate it,
+          // miss, still find the marker, join this load and be handed the value it has
+          // just removed.
+          let hash = crate::store::hash_key(&shared.store.hasher, &key);
+          let index = hash as usize & (shared.pending_loads.len() - 1);
+          let mut pending = shared.pending_loads[index].lock();
           {
             let mut guard = shard.map.write();
             let old_entry = guard.insert(key.clone(), new_cache_entry);
@@ -172,6 +180,8 @@ impl<K: Send, V: Send + Sync, H> CacheShared<K, V, H> {
               .current_cost
               .fetch_sub(old_cost, Ordering::Relaxed);
           }
+          pending.remove(&key);
+          drop(pending);
 
           // Record the write event in the buffer for the janitor to process later
           let _ = shard
@@ -184,10 +194,6 @@ impl<K: Send, V: Send + Sync, H> CacheShared<K, V, H> {
             .metrics
             .total_cost_added
             .fetch_add(cost, Ordering::Relaxed);
-
-          let hash = crate::store::hash_key(&shared.store.hasher, &key);
-          let index = hash as usize & (shared.pending_loads.len() - 1);
-          shared.pending_loads[index].lock().remove(&key);
 
           future.complete(value_arc_to_return);
         });
@@ -210,6 +216,10 @@ impl<K: Send, V: Send + Sync, H> CacheShared<K, V, H> {
             let value_arc_to_return = new_cache_entry.value();
 
             let shard = shared.store.get_shard(&key);
+            // See the sync branch: publish and retire the marker under the pending lock.
+            let hash = crate::store::hash_key(&shared.store.hasher, &key);
+            let index = hash as usize & (shared.pending_loads.len() - 1);
+            let mut pending = shared.pending_loads[index].lock_async().await;
             {
               let mut guard = shard.map.write_async().await;
               let old_entry = guard.insert(key.clone(), new_cache_entry);
@@ -225,6 +235,8 @@ impl<K: Send, V: Send + Sync, H> CacheShared<K, V, H> {
                 .current_cost
                 .fetch_sub(old_cost, Ordering::Relaxed);
             }
+            pending.remove(&key);
+            drop(pending);
 
             // Record the write event
             let _ = shard
@@ -238,11 +250,6 @@ impl<K: Send, V: Send + Sync, H> CacheShared<K, V, H> {
               .total_cost_added
               .fetch_add(cost, Ordering::Relaxed);
 
-            {
-              let hash = crate::store::hash_key(&shared.store.hasher, &key);
-              let index = hash as usize & (shared.pending_loads.len() - 1);
-              shared.pending_loads[index].lock_async().await.remove(&key);
-            }
             future.complete(value_arc_to_return);
           }
         };
